@@ -145,7 +145,7 @@ class Program(object):
 CMDS = ['fail', 'succeed', 'noop']
 
 
-def gen_direct(rnd, n=None, partial_joins=True, p_publish=0.0, p_sub=0.0, p_items=0.0, p_retry=0.0, p_policy=0.0, p_join=0.9, p_join1=0.2, p_err=0.3, p_guard=0.3, p_cmd=0.15, p_comp=0.2, allow_cmd=True, max_out=2):
+def gen_direct(rnd, n=None, partial_joins=True, p_publish=0.0, p_sub=0.0, p_items=0.0, p_retry=0.0, p_policy=0.0, p_join=0.9, p_join1=0.2, p_err=0.3, p_guard=0.3, p_cmd=0.15, p_comp=0.2, allow_cmd=True, max_out=2, p_pause=0.0):
     """Random direct DAG: edges go forward in the task order; a task with >= 2 inbound edges is a
     join (all / one / N) with probability p_join (otherwise it runs once per trigger)."""
     P = Program()
@@ -252,6 +252,13 @@ def gen_direct(rnd, n=None, partial_joins=True, p_publish=0.0, p_sub=0.0, p_item
                 d[pol] = rnd.choice([1, 2, 3])
                 d['pol_expr'] = rnd.random() < 0.3
             P.flags['policy'] = True
+        if p_pause and rnd.random() < p_pause and not d.get('join'):
+            # pause-before, alone or on top of the policy chosen above (the documented order: pause first, then wait)
+            if rnd.random() < 0.5 and not any(d.get(k) for k in ('wait-before', 'wait-after', 'timeout', 'fail-on', 'retry')):
+                d['wait-before'] = rnd.choice([1, 2])
+            d['pause-before'] = True
+            P.flags['policy'] = True
+            P.flags['pause'] = True
     return P
 
 
